@@ -117,8 +117,12 @@ class Tokenizer:
             # empty params
             return self._stack.pop()
 
-        assert start is not None
-        assert end is not None
+        if start is None or end is None:
+            # nothing between two delimiters: f!(a,,b)
+            raise SyntaxError(
+                "empty macro argument",
+                (self._path or "<unknown>", tok.start[0], tok.start[1] + 1, tok.line, tok.end[0], tok.end[1] + 1),
+            )
         if not string.strip():
             return TokenInfo(Token.WS, string, start, end, line)
         return TokenInfo(Token.MACRO_PARAM, string, start, end, line)
